@@ -8,10 +8,14 @@ C16 line protocol (strings travel as hex of UTF-8, `-` = empty string).
         frame = file,lineno,func,src,anchor   (src `-` = no source line, anchor `!` = no marker line)
         nl = 1 when the text carries the interpreter's final newline
       -> `... | wf=<WFtextA> gen=<toStringA data (+ "\n") = text> wfc=<WFtextA ∧ no markers ∧ no final newline → WFtext text>`
-  L <limit|n> <type> <msg> <cp>*            cp = path,lineno,func,line  (what the interpreter hands over)
+  L <limit|n> <syslimit|n> <type> <msg> <entry>*
+        entry = path,lineno,func,fid,cache,disk,loader   (what the interpreter hands over, see Model `TbEntry`)
+          cache = a | z:<line> | p:<line> | s:<size>:<mtime>:<line>      disk = n | y:<size>:<mtime>:<line>
+          loader = n | y:<line>
       -> `B=<ExceptionInfo.get_formatted> T=<TracebackInfo.from_traceback(tb, limit).get_formatted>
           S=<traceback.format_exception layout> P=<tbutils.print_exception output>
-          N=<number of entries of extract_tb(tb, limit)>`
+          Q=<tbutils.print_exception(limit=limit) output> N=<number of entries of extract_tb(tb, limit)>
+          F=<frames of ExceptionInfo.to_dict(): path,lineno,func,line;...>`
   C <lo> <hi>                               character classes of the code points lo..hi-1:
       one letter per code point: bit0 = `\d`, bit1 = isspace, bit2 = splitlines separator
   G                                         the literals of the model (for the translator self-check)
@@ -72,26 +76,62 @@ def handleT (toks : List String) : String :=
         | _, _, _ => "bad-op"
       | _ => "bad-op"
 
-def parseCpTok (w : String) : Option Callpoint :=
-  match splitOnChar w ',' with
-  | [a, b, c, d] =>
-    match unhx a, b.toNat?, unhx c, unhx d with
-    | some p, some n, some f, some l => some ⟨p, n, f, l⟩
-    | _, _, _, _ => none
+def parseCache (w : String) : Option CacheSt :=
+  match splitOnChar w ':' with
+  | ["a"] => some .absent
+  | ["z", l] => (unhx l).map .lazy
+  | ["p", l] => (unhx l).map .pinned
+  | ["s", sz, mt, l] =>
+    match sz.toNat?, mt.toNat?, unhx l with
+    | some sz, some mt, some l => some (.stamped sz mt l)
+    | _, _, _ => none
   | _ => none
+
+def parseDisk (w : String) : Option (Option (Nat × Nat × Str)) :=
+  match splitOnChar w ':' with
+  | ["n"] => some none
+  | ["y", sz, mt, l] =>
+    match sz.toNat?, mt.toNat?, unhx l with
+    | some sz, some mt, some l => some (some (sz, mt, l))
+    | _, _, _ => none
+  | _ => none
+
+def parseLoader (w : String) : Option (Option Str) :=
+  match splitOnChar w ':' with
+  | ["n"] => some none
+  | ["y", l] => (unhx l).map some
+  | _ => none
+
+def parseEntryTok (w : String) : Option TbEntry :=
+  match splitOnChar w ',' with
+  | [a, b, c, d, e, f, g] =>
+    match unhx a, b.toNat?, unhx c, d.toNat?, parseCache e, parseDisk f, parseLoader g with
+    | some p, some n, some fn, some fid, some ca, some di, some lo => some ⟨p, n, fn, fid, ⟨ca, di, lo⟩⟩
+    | _, _, _, _, _, _, _ => none
+  | _ => none
+
+def showDictFrame (f : Str × Nat × Str × Str) : String :=
+  s!"{hx f.1},{f.2.1},{hx f.2.2.1},{hx f.2.2.2}"
 
 def handleL (toks : List String) : String :=
   match toks with
-  | lim :: ty :: ms :: cps =>
+  | lim :: sys :: ty :: ms :: es =>
     let limit? : Option (Option Nat) := if lim = "n" then some none else lim.toNat?.map some
-    match limit?, unhx ty, unhx ms, allSome (cps.map parseCpTok) with
-    | some limit, some ty, some ms, some tb =>
-      let b := eiFormat (fromTraceback tb none) ty ms
-      let t := tbInfoFormat (fromTraceback tb limit)
-      let s := stdFormat tb ty ms
-      let p := printException tb ty ms
-      s!"B={hx b} T={hx t} S={hx s} P={hx p} N={(stdExtract tb limit).length}"
-    | _, _, _, _ => "bad-op"
+    let sys? : Option (Option Int) := if sys = "n" then some none else sys.toInt?.map some
+    match limit?, sys?, unhx ty, unhx ms, allSome (es.map parseEntryTok) with
+    | some limit, some sys, some ty, some ms, some tb =>
+      let tbB := tb.map walkB
+      let tbS := tb.map walkS
+      let all := fromTraceback tbB (resolveLimit none sys)
+      let lim := fromTraceback tbB (resolveLimit limit sys)
+      let b := eiFormat all ty ms
+      let t := tbInfoFormat lim
+      let s := stdFormat (stdExtract tbS (resolveLimit none sys)) ty ms
+      let p := printException all ty ms
+      let q := printException lim ty ms
+      let f := if all.isEmpty then "-" else ";".intercalate ((dictFrames all).map showDictFrame)
+      s!"B={hx b} T={hx t} S={hx s} P={hx p} Q={hx q} N={(stdExtract tbS (resolveLimit limit sys)).length} F={f}"
+    | _, _, _, _, _ => "bad-op"
   | _ => "bad-op"
 
 def classLetter (n : Nat) : Char :=
